@@ -165,4 +165,4 @@ def run(ctx):
         for key, what, det in res["viol"]:
             ctx.violation(key, what, dict(det, cmd=res["cmd"], options=res["opts"]))
         ctx.sample(dict(options=res["opts"], start_centroid=res["c0"], records=res["records"]))
-    ctx.min_events = {"steps_observed": 5000, "periods_closed": 40, "periods_closed_bunch>0": 10, "program_runs": n // 2, "program_periods_closed": n // 3, "program_runs_with_steps_per_revolution": 2}
+    ctx.min_events = {"steps_observed": 5000, "periods_closed": 40, "periods_closed_bunch>0": 10, "periods_of_1e5_steps_closed": 3, "program_runs": n // 2, "program_periods_closed": n // 3, "program_runs_with_steps_per_revolution": 2}
